@@ -239,6 +239,51 @@ def fixed_isotope_rows(ctx, rep, clause):
     rep.floor('SIB-table', 'labelled-isotope rows in the two pattern tables', n, 2)
 
 
+def average_from_isotopes(ctx, rep, clause):
+    """the average atomic mass is the abundance-weighted mean of the very isotope rows the patterns are built from
+    (sum of relative_atomic_mass x isotopic_composition): the mean of a pattern equals the average mass of the
+    composition only if both come from the same rows -- not from the tabulated standard atomic weight"""
+    program = ctx.program
+    f = program.func('peptacular.element_setup:map_atomic_symbol_to_average_mass')
+    c = Canon(f.node)
+    cls = program.cls('peptacular.element_setup:ElementInfo')
+    stores = [x for x in walk_own(f.node) if isinstance(x, ast.Assign) and isinstance(x.targets[0], ast.Subscript)]
+    if not stores:
+        raise AnalysisError('map_atomic_symbol_to_average_mass: the table store was not found')
+    for st in stores:
+        # everything the stored value can be computed from: all bindings of the locals it mentions, transitively
+        exprs, seen, todo = [st.value], set(), [st.value]
+        while todo:
+            e = todo.pop()
+            for y in ast.walk(e):
+                if isinstance(y, ast.Name) and c.is_local(y.id) and y.id not in seen:
+                    seen.add(y.id)
+                    for kind, payload in c.bindings[y.id]:
+                        val = payload if kind in ('assign', 'aug') else payload[0]
+                        if isinstance(val, ast.AST):
+                            exprs.append(val)
+                            todo.append(val)
+        reads = set()
+        has_sum = False
+        for v in exprs:
+            for y in ast.walk(v):
+                if isinstance(y, ast.Attribute):
+                    reads.add(y.attr)
+                    m = cls.methods.get(y.attr)
+                    if m is not None:
+                        reads |= {z.attr for z in ast.walk(m.node) if isinstance(z, ast.Attribute) and norm_stmt(z.value) == 'self'}
+                if isinstance(y, ast.Call) and norm_stmt(y.func) == 'sum':
+                    has_sum = True
+        has_sum = has_sum or any(kind == 'aug' for n_ in seen for kind, _pl in c.bindings[n_])
+        ok = has_sum and {'relative_atomic_mass', 'isotopic_composition'} <= reads and \
+            not any('standard' in r or 'weight' in r for r in reads)
+        ob(rep, 'SIB-table', f.fq, 'the average mass is the abundance-weighted sum over the isotope rows', ok,
+           f'reads {sorted(r for r in reads if not r.startswith("atomic_"))}',
+           f'the stored average mass reads {sorted(reads)}: it is not (only) the sum of relative_atomic_mass x '
+           f'isotopic_composition over the isotope rows, so the abundance-weighted mean of an isotope pattern (built from '
+           f'those rows) differs from the average mass of the composition (Se: 0.012 Da per atom)', f.loc(st), clause)
+
+
 def merge_accumulation(ctx, rep, clause):
     """merge_isotopic_distributions: every pattern goes through the same round-then-accumulate loop into an
     initially empty dict (a pattern that seeds the dict skips the rounding and overwrites equal masses)"""
@@ -290,6 +335,7 @@ def check(ctx, rep):
     estimate_forwarding(ctx, rep, 'C14b')
     table_selection(ctx, rep, 'C14c')
     fixed_isotope_rows(ctx, rep, 'C14c')
+    average_from_isotopes(ctx, rep, 'C14c')
     merge_accumulation(ctx, rep, 'C14e')
     for fq in (FQ, f'{ISO}:estimate_isotopic_distribution', f'{ISO}:merge_isotopic_distributions'):
         s = an.summaries.get((fq, ()))
